@@ -112,3 +112,106 @@ Fixpoint hist_ok (cur : option Z) (conf : Z) (k : N) (heads : list Z) (obs : lis
       | [] => negb (conf + 1 <=? confirmations h c) && hist_ok (Some c) conf (k + 1)%N r obs
       end
   end.
+
+(* ---- several guard evaluations: batches, sequences, concurrent schedules -------------------------
+   The guards are pure functions of what ONE evaluation is given: the head THAT evaluation was
+   served and the block of ITS event.  Several retry requests in one scanned range / one message
+   batch, and several goroutines inside one long-lived handler at the same time (sygma-core routes
+   every message batch in its own goroutine), are therefore a list of independent evaluations: the
+   model of a batch / sequence / schedule is the pointwise map of [processed] and its judge the
+   pointwise conjunction of the single-evaluation judge (Proofs: [multi_pointwise],
+   [multi_schedule_independent]).
+
+   Degenerate RPC answers enlarge the input domain by an explicit "unknown": a transaction that is
+   in no block yet has a receipt WITHOUT block number (receipt.BlockNumber == nil after decoding
+   "blockNumber": null), a node may answer the head request with no number (LatestBlock == nil).
+   The unchanged code dereferences the nil *big.Int and panics; the panic is recovered per retry
+   event (RetryV1EventHandler.HandleEvents) - the outcome of the path is "not processed".  The
+   judge: with an unknown event block or an unknown head there is no evidence whatsoever that the
+   event is buried, so nothing may be processed. *)
+Definition evaluation := (path * option Z * option Z)%type.   (* path, head served, event block *)
+
+Definition processed_opt (p : path) (ohead oblk : option Z) (conf : Z) : list Z :=
+  match ohead, oblk with
+  | Some head, Some blk => processed p head blk conf
+  | _, _ => []
+  end.
+
+Definition is_nil {A : Type} (l : list A) : bool := match l with [] => true | _ => false end.
+
+Definition eval_ok (p : path) (ohead oblk : option Z) (conf : Z) (blocks : list Z) : bool :=
+  match ohead, oblk with
+  | Some head, Some blk => single_ok p head blk conf blocks
+  | _, _ => is_nil blocks
+  end.
+
+Fixpoint all2 {A B : Type} (f : A -> B -> bool) (l : list A) (l' : list B) : bool :=
+  match l, l' with
+  | [], [] => true
+  | a :: r, b :: r' => f a b && all2 f r r'
+  | _, _ => false
+  end.
+
+Definition eval_model (conf : Z) (e : evaluation) : list Z :=
+  match e with (p, oh, ob) => processed_opt p oh ob conf end.
+Definition eval_judge (conf : Z) (e : evaluation) (blocks : list Z) : bool :=
+  match e with (p, oh, ob) => eval_ok p oh ob conf blocks end.
+
+Definition multi_model (conf : Z) (evs : list evaluation) : list (list Z) := map (eval_model conf) evs.
+(* [obs]: per evaluation, the blocks THAT evaluation handed to processing *)
+Definition multi_ok (conf : Z) (evs : list evaluation) (obs : list (list Z)) : bool :=
+  all2 (eval_judge conf) evs obs.
+
+(* One call that is served ONE head and finds several retry requests in its range (Substrate
+   RetryEventHandler.HandleEvents: the finalized head is fetched once per scanned range): the
+   observation is flat - the blocks whose deposits were turned into messages, in order. *)
+Definition batch_model (p : path) (head conf : Z) (blks : list Z) : list Z :=
+  flat_map (fun b => processed p head b conf) blks.
+Definition batch_ok (p : path) (head conf : Z) (blocks : list Z) : bool :=
+  forallb (fun b => buried p head b conf) blocks.
+
+(* EVM retry by transaction hash through the real event handler: one RetryV1 event of a scanned
+   range = (the receipt was served with status 1?, head served to this event, the receipt's block
+   number, the receipt's logs: (emitted by the bridge contract?, the log's own block number)).
+   "null" block numbers are [None].  The code returns the deposits of ALL bridge logs of the receipt
+   once head > receipt block + confirmations.  Observation: the indices of the logs whose deposits
+   became messages.  The judge asks of every such log that a block it is KNOWN to be in - by the
+   receipt or by the log itself (consistent answers name the same block; for inconsistent ones the
+   property's text does not say which one counts, so either is accepted) - is buried deep enough. *)
+Definition txlog := (bool * option Z)%type.
+Definition txev := (bool * option Z * option Z * list txlog)%type.
+
+Fixpoint mine_idx (logs : list txlog) (k : N) : list N :=
+  match logs with
+  | [] => []
+  | (m, _) :: r => (if m then [k] else []) ++ mine_idx r (k + 1)%N
+  end.
+
+Definition tx_model (conf : Z) (e : txev) : list N :=
+  match e with
+  | (served, oh, orb, logs) =>
+      if served then
+        match oh, orb with
+        | Some h, Some rb => if accept EvmRetryTx h rb conf then mine_idx logs 0%N else []
+        | _, _ => []
+        end
+      else []
+  end.
+
+Definition known_buried (ohead oblk : option Z) (conf : Z) : bool :=
+  match ohead, oblk with
+  | Some h, Some b => buried EvmRetryTx h b conf
+  | _, _ => false
+  end.
+
+Definition tx_ok (conf : Z) (e : txev) (obs : list N) : bool :=
+  match e with
+  | (_, oh, orb, logs) =>
+      forallb (fun i => match nth_error logs (N.to_nat i) with
+                        | Some (_, lb) => known_buried oh orb conf || known_buried oh lb conf
+                        | None => false
+                        end) obs
+  end.
+
+Definition txs_model (conf : Z) (evs : list txev) : list (list N) := map (tx_model conf) evs.
+Definition txs_ok (conf : Z) (evs : list txev) (obs : list (list N)) : bool := all2 (tx_ok conf) evs obs.
